@@ -267,16 +267,16 @@ func (f *Frame) elemAddr(arr, idx Term, elem types.Type) Value {
 	if isStruct(elem) || isArray(elem) {
 		return Value{T: ref}
 	}
-	hn, hs := f.vc.env.cellHeap(elem)
-	return Value{T: ref, Loc: &Loc{Kind: locHeap, Heap: hn, HSort: hs, Idx: ref, Typ: elem}}
+	hn, hs := f.vc.env.elemHeap(elem)
+	return Value{T: ref, Loc: &Loc{Kind: locHeap, Heap: hn, HSort: hs, Idx: ref, Typ: elem, Field: true}}
 }
 
 func (f *Frame) elemAddrRef(ref Term, elem types.Type) Value {
 	if isStruct(elem) || isArray(elem) {
 		return Value{T: ref}
 	}
-	hn, hs := f.vc.env.cellHeap(elem)
-	return Value{T: ref, Loc: &Loc{Kind: locHeap, Heap: hn, HSort: hs, Idx: ref, Typ: elem}}
+	hn, hs := f.vc.env.elemHeap(elem)
+	return Value{T: ref, Loc: &Loc{Kind: locHeap, Heap: hn, HSort: hs, Idx: ref, Typ: elem, Field: true}}
 }
 
 // alloc creates a fresh object reference.
